@@ -40,7 +40,8 @@ def shards(tier, seed):
                     'grid': tier != 'quick'})
     out.append({'name': 'misc', 'what': 'misc',
                 'n': 400 if tier == 'quick' else 8000})
-    return out
+    extra = [out[0], out[8], out[12], out[-1]]
+    return out + common.with_configs(extra, common.ALL_CONFIGS, take=4)[4:]
 
 
 def cases(shard, rnd):
@@ -175,6 +176,8 @@ def run_case(case, rec):
     from pamqp import body, commands, encode, header, heartbeat
     rec.ev()
     kind = case['kind']
+    if rec.evaluations % 7 == 0:
+        common.disturb_encoder(common.RND, 1)
     legacy = bool(case.get('legacy'))
     common.set_legacy(legacy)
     try:
